@@ -190,9 +190,9 @@ func (x *Exec) Line(line string) {
 			x.w.dumpState(n)
 		}()
 		x.emit("SYNC")
-	case "TX":
+	case "TX", "SIM":
 		n, ty, a := ws[1], ws[2], parseArgs(ws[3:])
-		x.tx(line, n, ty, a)
+		x.tx(line, n, ty, a, ws[0] == "SIM")
 	case "Q":
 		n, ty, a := ws[1], ws[2], parseArgs(ws[3:])
 		x.emit("%s", line)
@@ -447,7 +447,7 @@ func (x *Exec) verify(n string, a Args) {
 	}
 }
 
-func (x *Exec) tx(line, n, ty string, a Args) {
+func (x *Exec) tx(line, n, ty string, a Args, discard bool) {
 	w := x.w
 	from := a.str("from")
 	var call func(ctx context.Context) (string, error)
@@ -603,9 +603,20 @@ func (x *Exec) tx(line, n, ty string, a Args) {
 		panic("script: unknown tx type " + ty)
 	}
 	x.emit("%s", line)
-	res := w.runMsg(a["plan"], call)
-	x.lastClass, x.lastResp, x.lastEvents = res.class, res.resp, res.events
+	res := w.runMsg(a["plan"], discard, call)
 	x.nsteps++
+	if discard {
+		// only the outcome is observable; the chain must be exactly as before
+		if x.stats != nil {
+			x.stats.Tx("sim:"+ty, res.class)
+		}
+		x.emit("I R %s %s%s", n, res.class, res.resp)
+		x.emit("I H %s %x", n, w.lastHash)
+		w.dumpState(n)
+		x.emit("SYNC")
+		return
+	}
+	x.lastClass, x.lastResp, x.lastEvents = res.class, res.resp, res.events
 	if x.stats != nil {
 		x.stats.Tx(ty, res.class)
 	}
